@@ -6,6 +6,7 @@ import (
 	"fmt"
 	"os"
 	"os/exec"
+	"runtime/debug"
 	"strings"
 	"time"
 
@@ -30,6 +31,8 @@ type wResp struct {
 }
 
 func childMain(args []string) int {
+	// a runaway recursion (cyclic array) should die quickly, not after growing a 1 GB stack
+	debug.SetMaxStack(96 << 20)
 	env := vh.NewEnv()
 	pre := env.RunSource("<?php\n"+classPrelude, "/verif-c06-prelude.php")
 	in := bufio.NewReaderSize(os.Stdin, 1<<20)
@@ -137,6 +140,7 @@ func (r *runner) exec(src string) vh.Outcome {
 			if !ok {
 				r.w.kill()
 				r.w = nil
+				r.crashes++
 				return vh.Outcome{Kind: "crash", Detail: "interpreter process died (fatal error)"}
 			}
 			var rs wResp
@@ -147,6 +151,7 @@ func (r *runner) exec(src string) vh.Outcome {
 		case <-time.After(20 * time.Second):
 			r.w.kill()
 			r.w = nil
+			r.crashes++
 			return vh.Outcome{Kind: "hang", Detail: "no answer within 20s"}
 		}
 	}
